@@ -465,8 +465,20 @@ def map_models(I, st, caller, func, args, argtys, dest_ty):
             n = len(mp.fields)
             import itertools
             outs = []
-            for perm in itertools.permutations(range(n)):
-                ks = [deref_all(I, st, mp.fields[p].fields[0]) for p in perm]
+
+            def keyterm(k_):
+                k_ = deref_all(I, st, k_)
+                if isinstance(k_, EnumV) and not any(k_.payloads.values()):
+                    # fieldless enum with derived Ord: ordered by discriminant
+                    return k_.discr if z3.is_expr(k_.discr) else z3.IntVal(k_.discr)
+                return k_
+            allk = [z3.simplify(keyterm(e.fields[0])) if z3.is_expr(keyterm(e.fields[0])) else keyterm(e.fields[0]) for e in mp.fields]
+            if all(z3.is_expr(k_) and z3.is_int_value(k_) for k_ in allk):
+                perms = [tuple(sorted(range(n), key=lambda p: allk[p].as_long()))]
+            else:
+                perms = itertools.permutations(range(n))
+            for perm in perms:
+                ks = [allk[p] for p in perm]
                 cond = z3.And([ks[j] < ks[j + 1] for j in range(n - 1)]) if n > 1 else z3.BoolVal(True)
                 if I.feasible(st, cond):
                     s2 = st.fork()
@@ -682,6 +694,34 @@ def btreeset_models(I, st, caller, func, args, argtys, dest_ty):
                             work.append((s4, i + 1, o.value.payloads[idx][0]))
                         else:
                             outs.append(Outcome("return", o.value, s4))
+        return outs
+    m = re.match(r"^<(.*) as Iterator>::sum::<(u8|u16|u32|u64|u128|usize|i64|i128)>$", f)
+    if m and isinstance(args[0], Agg) and args[0].kind == "iter":
+        from .symval import INT_TYPES
+        lo, hi = INT_TYPES[m.group(2)]
+        outs = []
+        for s2, items in drain(I, st.fork(), caller, args[0]):
+            if isinstance(items, Outcome):
+                outs.append(items)
+                continue
+            vals = [deref_all(I, s2, x) for x in items]
+            if not all(z3.is_expr(v) and z3.is_int(v) for v in vals):
+                raise Unencodable("Iterator::sum over non-integer values")
+            # std: fold with `+` — every partial sum overflowing the item type panics with overflow checks on
+            partial = z3.IntVal(0)
+            ovf = []
+            for v in vals:
+                partial = partial + v
+                ovf.append(z3.Or(partial > hi, partial < lo))
+            bad = z3.simplify(z3.Or(ovf)) if ovf else z3.BoolVal(False)
+            if I.feasible(s2, bad):
+                s3 = s2.fork()
+                s3.assume(bad)
+                outs.append(Outcome("panic", None, s3, "attempt to add with overflow (Iterator::sum)"))
+            if I.feasible(s2, z3.Not(bad)):
+                s4 = s2.fork()
+                s4.assume(z3.Not(bad))
+                outs.append(Outcome("return", z3.simplify(partial), s4))
         return outs
     m = re.match(r"^<(.*) as Iterator>::(position|nth|cloned|copied|count)(::<.*>)?$", f)
     if m:
